@@ -17,7 +17,7 @@ import threading
 import time
 
 VERIF = os.path.dirname(os.path.dirname(os.path.abspath(__file__)))
-REPO = os.environ.get("VERIF_REPO", "/repo")
+REPO = os.environ.get("VERIF_REPO") or "/repo"
 PY = os.environ.get("VERIF_PY", "/venv/bin/python")
 
 
